@@ -73,12 +73,21 @@ def correspond(ctx):
     for n in failing:
         ty, ops, kind = cases[n]
         mismatches.append({"type": ty, "harness_line": lines[n], "rust": outs[n], "kind": kind})
-    # float weight types: direct oracle only (outside the theorems)
+    # float weight types: direct oracle only (outside the theorems).  Weights are multiples of 1/8 below 2^10, so every sum is exact in
+    # f32 and f64 and the integer weight-list spec applies to the values scaled by 8; NaN and negative weights must be refused by
+    # new / push / update with InvalidWeight and leave the value unchanged
+    fl_lines, fl_cases = float_histories(ctx)
+    fl_outs = run_harness_parallel(ctx["binary"], fl_lines)
+    for line, (ty, ops), o in zip(fl_lines, fl_cases, fl_outs):
+        why = float_oracle(ty, ops, o)
+        if why:
+            oracle_failures.append({"property": PID, "type": ty, "harness_line": line, "what": why, "class": "tree-history-float"})
     return {
         "evaluations": len(cases), "distinct_nontrivial": len(distinct),
         "rule": "histories over {new,push,pop,update}: exhaustive small-alphabet histories (u8,i8: init len<=2, depth 2 at quick; "
                 "5 types, depth 3 at thorough) plus seeded random histories for all 11 integer weight types with weights "
-                "near 0, near MAX and on the overflow boundary; a case is non-trivial when it has at least two operations; "
+                "near 0, near MAX and on the overflow boundary; float trees (f32/f64) over exactly representable weights with NaN / negative "
+                "pushes, updates and rebuilds through the direct oracle; a case is non-trivial when it has at least two operations; "
                 "distinct = distinct (type, history) pairs",
         "samples": [lines[0], lines[len(lines) // 2], lines[-1]],
         "mismatches": mismatches, "oracle_failures": oracle_failures,
@@ -86,6 +95,93 @@ def correspond(ctx):
         "extra": {"op_distribution": opcount, "outcome_distribution": outcount,
                   "kinds": {k: sum(1 for c in cases if c[2] == k) for k in set(c[2] for c in cases)}},
     }
+
+
+FBAD = {"nan": {"f32": "x7fc00000", "f64": "x7ff8000000000000"}, "nnan": {"f32": "xffc00000", "f64": "xfff8000000000000"}}
+
+
+def fhex(ty, v):
+    import struct
+    if isinstance(v, str): return FBAD[v][ty]
+    return ("x%08x" % struct.unpack("<I", struct.pack("<f", v / 8.0))[0]) if ty == "f32" else ("x%016x" % struct.unpack("<Q", struct.pack("<d", v / 8.0))[0])
+
+
+def float_histories(ctx):
+    """histories over float trees; a weight is an int k (meaning k/8), a negative int, or 'nan'/'nnan'"""
+    rng, tier = ctx["rng"], ctx["tier"]
+    cases = []
+    def rw():
+        c = rng.below(100)
+        if c < 12: return "nan" if c < 8 else "nnan"
+        if c < 22: return -1 - rng.below(40)
+        if c < 35: return 0
+        return rng.below(8000)
+    for k in range(300 if tier == "quick" else 6000):
+        ty = "f32" if k % 2 else "f64"
+        n0 = rng.below(6)
+        ops = [("N", [rng.below(800) if rng.below(10) else 0 for _ in range(n0)])]
+        ln = n0
+        for _ in range(3 + rng.below(14)):
+            c = rng.below(100)
+            if c < 35:
+                w = rw(); ops.append(("P", w))
+                if not isinstance(w, str) and w >= 0: ln += 1
+            elif c < 50:
+                ops.append(("O",)); ln = max(0, ln - 1)
+            elif c < 90 and ln > 0:
+                ops.append(("U", rng.below(ln), rw()))
+            else:
+                ws = [rw() for _ in range(rng.below(5))]
+                ops.append(("N", ws))
+                if all(not isinstance(w, str) and w >= 0 for w in ws): ln = len(ws)
+        cases.append((ty, ops))
+    lines = []
+    for ty, ops in cases:
+        toks = []
+        for op in ops:
+            if op[0] == "N": toks.append("N:" + (",".join(fhex(ty, w) for w in op[1]) or "-"))
+            elif op[0] == "P": toks.append("P:" + fhex(ty, op[1]))
+            elif op[0] == "O": toks.append("O")
+            else: toks.append("U:%d:%s" % (op[1], fhex(ty, op[2])))
+        lines.append("tree %s 0 %s" % (ty, " ".join(toks)))
+    return lines, cases
+
+
+def float_oracle(ty, ops, out):
+    import struct
+    def val8(h):
+        x = struct.unpack("<f", struct.pack("<I", int(h[1:], 16)))[0] if ty == "f32" else struct.unpack("<d", struct.pack("<Q", int(h[1:], 16)))[0]
+        return None if x != x else x * 8.0
+    cur = []
+    for n, (op, rec) in enumerate(zip(ops, out.split(";"))):
+        res, st, subs, gets, eqf = rec.split("|")
+        bad = lambda w: isinstance(w, str) or w < 0
+        if op[0] == "N":
+            exp = "E:InvalidWeight" if any(bad(w) for w in op[1]) else "ok"
+            if exp == "ok": cur = list(op[1])
+        elif op[0] == "P":
+            exp = "E:InvalidWeight" if bad(op[1]) else "ok"
+            if exp == "ok": cur.append(op[1])
+        elif op[0] == "O":
+            exp = ("some:" + fhex(ty, cur[-1])) if cur else "none"
+            if cur: cur.pop()
+        else:
+            exp = "E:InvalidWeight" if bad(op[2]) else "ok"
+            if exp == "ok": cur[op[1]] = op[2]
+        what = "step %d %s" % (n, op)
+        if res != exp:
+            return "%s on a float tree returned %s, the weight list says %s" % (what, res, exp)
+        ln, em, va = st.split(",")
+        if int(ln) != len(cur) or (em == "1") != (not cur) or (va == "1") != (sum(cur) > 0):
+            return "%s: len/is_empty/is_valid = %s for the weight list %s (in eighths)" % (what, st, cur)
+        if gets == "getPanic":
+            return "%s: get(i) panicked for an in-range index" % what
+        g = [] if gets == "[]" else [val8(h) for h in gets[1:-1].split(",")]
+        if g != [float(w) for w in cur]:
+            return "%s: get() list %s differs from the weight list %s (both in eighths; all sums are exact)" % (what, g, cur)
+        if eqf != "eq":
+            return "%s: value != WeightedTreeIndex::new(list) (%s)" % (what, eqf)
+    return None
 
 
 def replay(ctx, obj):
